@@ -188,10 +188,10 @@ Definition final (c : cfg) (s : st) : ret :=
   | _ => OutOfFuel
   end.
 
-(* enough for every schedule: each step either consumes a decision, submits a
-   task, or is one of at most four bookkeeping steps around such a step *)
+(* enough for every schedule (Proofs/C14.v, run_terminates): each step either
+   consumes a decision, submits a task, or is a bookkeeping step around one *)
 Definition fuel_for (c : cfg) (sched : list decision) : nat :=
-  8 * (length (outs c) + length sched) + 16.
+  20 * (length (outs c) + length sched) + 20.
 
 Definition run (c : cfg) (sched : list decision) (expired0 : bool) : st :=
   iter c (fuel_for c sched) (init c sched expired0).
